@@ -273,6 +273,28 @@ func Drivers(nthreads int) []Driver {
 				*out = append(*out, obsMap(m2, v))
 			}}
 		}},
+		{"19 Time schemas built from one Time.Format option value (a field and list items), per-thread texts", nthreads, func() *Shared {
+			opt := z.Time.Format("2006-01-02")
+			s := z.Struct(z.Schema{"day": z.Time(opt), "days": z.Slice(z.Time(opt))})
+			own := z.Time(opt)
+			type D struct {
+				Day  time.Time
+				Days []time.Time
+			}
+			texts := []string{"2021-03-04", "2019-12-31", "2024-02-29"}
+			return &Shared{Thread: func(i int, out *[]string, yield func()) {
+				var d D
+				m := s.Parse(map[string]any{"day": texts[i%3], "days": []any{texts[(i+1)%3], texts[i%3]}}, &d)
+				days := ""
+				for _, t := range d.Days {
+					days += t.UTC().Format("2006-01-02") + ","
+				}
+				*out = append(*out, obsMap(m, d.Day.UTC().Format("2006-01-02")+" ["+days+"]"))
+				var t time.Time
+				l := own.Parse(texts[(i+2)%3], &t)
+				*out = append(*out, obsList(l, t.UTC().Format("2006-01-02")))
+			}}
+		}},
 		{"13 tests carrying parameter names of their own (Params option), never seen before in this process", nthreads, func() *Shared {
 			freshNames++
 			pa := map[string]any{"min": 5, fmt.Sprintf("unit_%d_a", freshNames): "chars"}
